@@ -123,14 +123,20 @@ def popen_eof_branch_carries_no_data(f, r):
     if not loops:
         return False, 'the EOF flag is set outside the dequeue loop'
     test = norm(loops[0].test)
-    if 'len(buf) < size' not in test:
-        return False, 'the loop guard %s does not bound len(buf) < size' % test
+    # the accumulated-text variable: the local initialised from self._buf
+    bufs = [n.ast.targets[0].id for n in g.nodes if n.kind == 'stmt' and isinstance(n.ast, ast.Assign) and isinstance(n.ast.targets[0], ast.Name)
+            and norm(n.ast.value) == 'self._buf']
+    if len(bufs) != 1:
+        return False, 'the accumulated-text local (initialised from self._buf) was not found'
+    buf = bufs[0]
+    if 'len(%s) < size' % buf not in test:
+        return False, 'the loop guard %s does not bound len(%s) < size' % (test, buf)
     # buf not extended between loop test and the flag on that path: flag is in the `incoming is None` branch before any buf +=
     hdr = g.node_of_stmt(loops[0])
-    mods = [n for n in g.nodes if n.kind == 'stmt' and 'buf' in assigned_names(n.ast) and any(p is loops[0] for p in parent_chain(n.ast))]
+    mods = [n for n in g.nodes if n.kind == 'stmt' and buf in assigned_names(n.ast) and any(p is loops[0] for p in parent_chain(n.ast))]
     for m in mods:
         if g.path(hdr, flags[0], avoid=set(), skip_labels=('exc',)) and g.path(m, flags[0], avoid={hdr}, skip_labels=('exc',)):
-            return False, 'buf is extended at L%d before the flag is set in the same iteration' % m.lineno
+            return False, '%s is extended at L%d before the flag is set in the same iteration' % (buf, m.lineno)
     # all assignments to self._buf are buf[size:] forms or the constructor's empty value
     for n in g.nodes:
         if n.kind == 'stmt' and stmt_assigns_attr(n.ast, '_buf') is not None:
@@ -142,7 +148,7 @@ def popen_eof_branch_carries_no_data(f, r):
             else:
                 vals.append(n.ast.value)
             for e in vals:
-                if norm(e) != 'buf[size:]':
+                if norm(e) != '%s[size:]' % buf:
                     return False, 'self._buf is assigned %s' % norm(e)
     return True, None
 
@@ -170,11 +176,12 @@ def expected_direction(repo, f, k, g):
         n = g.node_for(k)
         for t in g.nodes:
             if t.kind == 'test' and n in guard_region(g, t, 'true'):
-                txt = norm(t.ast)
-                if txt == 'self.child_fd in r':
-                    return 'read'
-                if txt == 'self.STDIN_FILENO in r':
-                    return 'send'
+                cp = compare_parts(t.ast)
+                if cp and isinstance(cp[1], ast.In) and isinstance(cp[2], ast.Name):
+                    if norm(cp[0]) == 'self.child_fd':
+                        return 'read'
+                    if norm(cp[0]) == 'self.STDIN_FILENO':
+                        return 'send'
     return None
 
 
